@@ -398,8 +398,9 @@ def mutate_name_check(ctx: Ctx) -> None:
     ctx.floor("paths through mutate", total, 2)
 
 
-def mutate_order(ctx: Ctx) -> None:
-    """C05.4 / C06.3: backup data captured before the yield; backup block complete before the output is opened."""
+def mutate_order(ctx: Ctx, failure_clauses: bool = True) -> None:
+    """C05.4 / C06.3: backup data captured before the yield; backup block complete before the output is opened.
+    With failure_clauses=False only what the fault-free behaviour (C05) depends on is judged."""
     m = model(ctx)
     f, cfg = m.f, m.cfg
     by_role = {m.role(w): w for w in m.writes}
@@ -417,6 +418,15 @@ def mutate_order(ctx: Ctx) -> None:
                     and len(c.args) == 1 and isinstance(c.args[0], ast.Name) and not c.keywords):
                 good_calls.append(c)
         others = [c for c in body_calls if c not in good_calls]
+        if not failure_clauses:
+            # C05 only needs to know what text is written; a serializer streaming into the writer writes the same text
+            if len(good_calls) == 1:
+                data_names.append((role, good_calls[0].args[0].id, w))
+            elif role == "output" and any(isinstance(c.func, ast.Attribute) and c.func.attr == "serialize" and isinstance(c.func.value, ast.Name) and c.func.value.id == m.sim_var for c in body_calls):
+                ctx.ok("R-TABLE", f, "output data is the serialization of the simfile", "streamed by simfile.serialize(writer)", node=w["with"])
+            else:
+                ctx.bad("R-TABLE", f, f"the {role} block writes the serialized simfile", f"{len(good_calls)} plain write(s), calls: {[src(c, 40) for c in body_calls]}", node=w["with"])
+            continue
         for c in others:
             ctx.bad("R-ORDER", f, f"call inside the write-mode block of the {role} file: {src(c.func, 40)}()",
                     f"{src(c, 70)} runs after the file has been truncated; if it raises (unserializable value, unencodable character) the file is left cut short", node=c)
@@ -441,16 +451,26 @@ def mutate_order(ctx: Ctx) -> None:
             if isinstance(v, ast.IfExp):
                 ctx.expect("R-TABLE", f, "backup data is computed whenever a backup name was given",
                            isinstance(v.test, ast.Name) and v.test.id == "backup_filename" and any(n is ser[0] for n in ast.walk(v.body)) if ser else False, src(v), src(v), node=bs[0].node)
+        elif not failure_clauses:
+            ctx.expect("R-ORDER", f, "output data is serialized after the caller's block", cfg.dominates(m.ynode, bn), "",
+                       "the output text is computed before the yield: the caller's edits would be lost", node=bs[0].node)
         else:
             ctx.expect("R-ORDER", f, "output data is serialized after the caller's block and before any file is opened for writing",
                        cfg.dominates(m.ynode, bn) and all(cfg.dominates(bn, w2["node"]) or m.role(w2) == "other" for w2 in m.writes), "",
                        "the output text is not computed between the yield and the first write-mode open", node=bs[0].node)
-            encs = [c for c in method_calls(f, "encode") if isinstance(c.func.value, ast.Name) and c.func.value.id == name and c.args
+            encs = [] if not failure_clauses else [c for c in method_calls(f, "encode") if isinstance(c.func.value, ast.Name) and c.func.value.id == name and c.args
                     and isinstance(c.args[0], ast.Name) and c.args[0].id == m.enc_var]
             good = any(all(cfg.dominates(cfg_node_of(cfg, f, c), w2["node"]) for w2 in m.writes) for c in encs)
-            ctx.expect("R-ORDER", f, "output data is encoded in the detected encoding before any file is opened for writing", good, f"{len(encs)} encode check(s)",
+            if failure_clauses:
+              ctx.expect("R-ORDER", f, "output data is encoded in the detected encoding before any file is opened for writing", good, f"{len(encs)} encode check(s)",
                        "no '<output text>.encode(<detected encoding>)' dominates the write-mode opens: an unencodable character raises after truncation", node=w["with"])
     # block order: backup closed before output opened; never the other way round
+    if not failure_clauses:
+        for role, w in (("backup", b), ("output", o)):
+            ctx.expect("R-ORDER", f, f"the {role} file is opened only after the caller's block", cfg.dominates(m.ynode, w["node"]), "", f"{role} open is not dominated by the yield", node=w["call"])
+        bad = cfg.must_pass([o["node"]], start=m.ynode)
+        ctx.expect("R-ORDER", f, "a normal exit of the block always writes the output", bad is None, "", "a path from the yield to the normal exit skips the output write", node=o["call"])
+        return
     b_enter, o_enter = cfg.node_for(b["with"]), cfg.node_for(o["with"])
     b_exit = [n.id for n in cfg.nodes if n.kind == "with_exit" and n.stmt is b["with"] and n.note == "normal"]
     nested = any(n is o["with"] for st in b["with"].body for n in walk_no_nested(st)) or any(n is b["with"] for st in o["with"].body for n in walk_no_nested(st))
